@@ -98,15 +98,26 @@ def r3_sorted_rows(run, w):
          "it by that key)", ok, witness=wit, fi=fn.fi)
   ok = bool(adds)
   wit = None
+  sflow = H.Flow(fn)
+  def key(e):
+    e2 = H.inline(sflow, e)
+    if isinstance(e2, ast.Compare) and len(e2.ops) == 1 and \
+        isinstance(e2.ops[0], (ast.Eq, ast.NotEq)) and \
+        {text(e2.left), text(e2.comparators[0])} == {ps[2], "self.getdefault()"}:
+      a = H.f_atom("is-default")
+      return a if isinstance(e2.ops[0], ast.Eq) else H.f_not(a)
+    return None
+  cond = H.Conditions(fn, sflow, key)
   for (n, c) in adds:
-    g = H.guards_of(fn.node, c11._stmt_of(fn.node, c))
-    okg = len(g) == 1 and g[0][1] is True and _is_not_default(g[0][0], ps[2])
+    actual = cond.of_stmt(c11._stmt_of(fn.node, c))
+    okg = H.f_equivalent(actual, H.f_not(H.f_atom("is-default")))
     ok = ok and okg and cfg.dominated_by(n.id, writes)
     if not okg:
-      wit = "guards: %s" % "; ".join("%s=%s" % (short(t), p) for (t, p) in g)
-  # and every path after the write with a non-default value passes the add: the guard `if` node
-  # post-dominates the write
-  ifs = {n.id for n in cfg.nodes if n.kind == "if" and _is_not_default(n.stmt.test, ps[2])}
+      wit = "added when " + H.f_show(actual)
+  # and every path after the write with a non-default value passes the add: the test of the
+  # default post-dominates the write
+  ifs = {n.id for n in cfg.nodes if n.kind == "if" and
+         "is-default" in H.f_atoms(cond.of_expr(n.stmt.test))}
   ok = ok and bool(ifs) and all(cfg.postdominated_by(x, ifs) for x in writes)
   run.ob(R3, fn.qualname, "super().set(...) -> if %s != self.getdefault(): self.%s.add(%s)"
          % (ps[2], SR, ps[1]), "after the write the row re-enters the sorted list under its new "
